@@ -47,6 +47,12 @@ def select(obls, globs):
 # obligation failed, (b) when a code change took a function out of the deductive units' reach (undecided), (c) in the
 # thorough tier. They are never run by the quick tier on a tree where every obligation is discharged.
 BOUNDED = {
+    'codec_model': {'test': 'replays/suite/vx_codec_model.rs', 'props': ['C12'],
+                    'bound': 'TTL edge values in both spellings and inside a stored frame; 270 ReadOptions combinations through to_query_string / '
+                             'from_query; fixed lists of malformed TTLs and options'},
+    'content_model': {'test': 'replays/suite/vx_content_model.rs', 'props': ['C10', 'C13'],
+                      'bound': 'HTTP bodies of 9 sizes (0 .. 100000 bytes) in 1-4 pieces through POST /{topic} and POST /cas; nu .append of byte streams '
+                               'in 1, 3, 40 pieces; 18 malformed requests'},
     'store_model': {'test': 'replays/suite/vx_store_model.rs', 'props': ['C01', 'C05', 'C06', 'C07', 'C08', 'C09'],
                     'bound': 'VX_HISTORIES histories (40 quick / 200 thorough) x 60 steps, seeded by VERIF_SEED; 12 adversarial topics, 3 contexts '
                              '(one numerically adjacent, imported), all TTL kinds, remove, reopen, last-id/limit reads'},
@@ -73,6 +79,41 @@ def run_bounded(prop_id, tier, seed):
         except Exception as e:  # noqa
             out.append({'suite': name, 'bound': b['bound'], 'failed': False, 'broken': True, 'message': str(e), 'output': ''})
     return out
+
+
+def anchor_files(prop_id):
+    with open(os.path.join(ROOT, 'properties.jsonl')) as f:
+        for ln in f:
+            p = json.loads(ln)
+            if p['id'] == prop_id:
+                return [x for x in p['anchors']['files'] if x.endswith('.rs')]
+    return []
+
+
+def file_token_hash(rel):
+    import hashlib
+    from . import rtok
+    try:
+        with open(os.path.join(REPO, rel)) as f:
+            return hashlib.sha256('\x00'.join(rtok.sig_texts(f.read())).encode()).hexdigest()[:20]
+    except Exception as e:  # noqa
+        return 'unreadable:' + str(e)[:40]
+
+
+def changed_anchor_files(prop_id):
+    """files the property is anchored in whose token stream differs from the committed baseline (the tree the proofs were
+    developed on): a change there may sit in code no contract covers, so the bounded stand-in is run as well"""
+    p = os.path.join(ROOT, 'baseline_hashes.json')
+    base = json.load(open(p)) if os.path.exists(p) else {}
+    return [f for f in anchor_files(prop_id) if base.get(f) != file_token_hash(f)]
+
+
+def write_baseline():
+    files = set()
+    for pid in PROPS:
+        files.update(anchor_files(pid))
+    with open(os.path.join(ROOT, 'baseline_hashes.json'), 'w') as f:
+        json.dump({x: file_token_hash(x) for x in sorted(files)}, f, indent=1)
 
 
 def check(prop_id, tier, seed):
@@ -135,7 +176,8 @@ def check(prop_id, tier, seed):
     # ---- bounded stand-ins ----------------------------------------------------------------
     bounded_runs = []
     will_be_undecided = not violations and (tooling or undecided or missing)
-    if (violations or will_be_undecided or tier == 'thorough') and os.environ.get('VX_NO_REPLAY') != '1':
+    changed_files = changed_anchor_files(prop_id)
+    if (violations or will_be_undecided or changed_files or tier == 'thorough') and os.environ.get('VX_NO_REPLAY') != '1':
         bounded_runs = run_bounded(prop_id, tier, seed)
         for br in bounded_runs:
             if not br['failed']:
@@ -223,6 +265,7 @@ def check(prop_id, tier, seed):
         'vacuity': {'canaries_failed_as_required': canaries, 'expected_obligation_globs_unmatched': missing},
         'assumption_scan': [f'{u} line {ln}: {kind}: {txt}' for (u, ln, kind, txt) in assumptions_scan][:400],
         'solver_time_ms': solver_ms,
+        'anchor_files_changed_since_baseline': changed_files,
         'not_decided': spec.get('not_decided', ''),
         'tooling': tooling[:20],
     }
@@ -252,12 +295,16 @@ def main(argv):
     s = sub.add_parser('setup')
     l = sub.add_parser('list')
     mf = sub.add_parser('manifest')
+    bl = sub.add_parser('baseline')
     a = ap.parse_args(argv)
     if a.cmd == 'check':
         seed = int(os.environ.get('VERIF_SEED', '0') or 0)
         sys.exit(check(a.prop, a.tier, seed))
     if a.cmd == 'setup':
         sys.exit(kani_mod.setup(os.path.join(WORK, 'kani-setup')))
+    if a.cmd == 'baseline':
+        write_baseline()
+        return
     if a.cmd == 'manifest':
         from .manifest import write_manifest
         write_manifest(ROOT)
